@@ -103,6 +103,9 @@ struct Env<'a> {
     prior: Prior<'a>,
     between: &'a [Vec<u8>],
     timers_only: bool,
+    /// what the receiver has to say to the message as signed: `Accept`, or
+    /// `SrvBadTime` when the message is a signed BADTIME error response
+    base: O,
 }
 
 struct Expect {
@@ -150,6 +153,19 @@ fn bump(m: &mut [u8], idx: usize, d: i32) {
 /// Applies one tampering and says what RFC 8945 allows as the outcome.
 fn tamper(u: &mut Unstructured, kind: usize, signed: &[u8], env: &Env) -> Option<(Vec<u8>, Expect)> {
     let (m, mut e) = tamper_inner(u, kind, signed, env)?;
+    if env.base != O::Accept {
+        // The message as signed is not "accepted" but reported as the
+        // server's (authenticated) complaint: an alteration the RFC lets
+        // pass leaves that outcome as it is.
+        for o in e.allowed.iter_mut() {
+            if *o == O::Accept {
+                *o = env.base;
+            }
+        }
+    }
+    if env.timers_only && env.base != O::Accept && matches!(e.label, "tsig-error-flip" | "tsig-class-flip" | "tsig-ttl-flip" | "other-data-added" | "other-data-of-other-length-added" | "tsig-other-data-flip") {
+        e.allowed.push(env.base);
+    }
     if env.timers_only && matches!(e.label, "tsig-error-flip" | "tsig-class-flip" | "tsig-ttl-flip" | "other-data-added" | "other-data-of-other-length-added" | "tsig-other-data-flip") {
         // RFC 8945 §5.3.1: from the second message of a sequence on only the
         // TSIG timers are digested; class, TTL, error and other data of the
@@ -478,6 +494,18 @@ fn tamper_inner(u: &mut Unstructured, kind: usize, signed: &[u8], env: &Env) -> 
     }
 }
 
+/// `ServerBadTime` carries the time signed of the request and the server's
+/// clock from the (authenticated) other data.
+fn check_badtime_clocks(what: &'static str, r: &Result<(), domain::tsig::ValidationError>, t_client: u64, t_server: u64) -> CaseResult {
+    match r {
+        Err(domain::tsig::ValidationError::ServerBadTime { client, server }) => {
+            vensure!(u64::from(*client) == t_client && u64::from(*server) == t_server, format!("{what}:badtime-clocks-wrong"), "client {} server {}, signed were {t_client} {t_server}", u64::from(*client), u64::from(*server));
+            Ok(())
+        }
+        other => vfail!(format!("{what}:signed-badtime-response-not-recognised"), "got {:?}", other),
+    }
+}
+
 pub fn run_tamper(data: &[u8], ctx: &mut Ctx) -> CaseResult {
     let mut u = Unstructured::new(data);
     let u = &mut u;
@@ -489,6 +517,12 @@ pub fn run_tamper(data: &[u8], ctx: &mut Ctx) -> CaseResult {
     }
     let skind = [StoreKind::Map, StoreKind::ArcMap, StoreKind::Single, StoreKind::ArcSingle][pick(u, 4)];
     let n_between = pick(u, 4);
+    // `n_between` only uses the two top bits of its octet; the six low bits
+    // choose (1 in 4) a signed BADTIME error response as the message that is
+    // tampered with on the client sides (decoded this way so that every other
+    // draw — and every stored replay — keeps its meaning).
+    let err_sel = data.get(15).copied().unwrap_or(0) & 0x3f;
+    let err_resp = side != Side::Server && err_sel >= 48;
     let strip = pick(u, 4) == 3;
     let fudge = gen_fudge(u);
     let t = gen_time(u);
@@ -525,6 +559,15 @@ pub fn run_tamper(data: &[u8], ctx: &mut Ctx) -> CaseResult {
         strip_additional(&mut req);
         strip_additional(&mut resp);
     }
+    // RFC 8945 §5.2.3: the server's complaint about the request's time is a
+    // *signed* response: RCODE NOTAUTH, TSIG error BADTIME, time signed as in
+    // the request, the server's clock in 6 octets of other data.
+    let t_srv = (t.wrapping_add(fudge as u64 + 1 + (err_sel as u64 - 47 * err_resp as u64) * 1000)) & rs::T48_MAX;
+    if err_resp {
+        resp[3] = (resp[3] & 0xF0) | 9;
+    }
+    let base = if err_resp { O::SrvBadTime } else { O::Accept };
+    let infix = if err_resp { "badtime-response:" } else { "" };
 
     //--- the conformant signed request (library and reference must agree octet for octet)
     let kcl = kc.lib();
@@ -539,7 +582,7 @@ pub fn run_tamper(data: &[u8], ctx: &mut Ctx) -> CaseResult {
     let mut between: Vec<Vec<u8>> = vec![];
     match side {
         Side::Server => {
-            let env = Env { side, store: &store, recv: &ks, signer: &kc.rk, prior: Prior::None, between: &[], timers_only: false };
+            let env = Env { side, store: &store, recv: &ks, signer: &kc.rk, prior: Prior::None, between: &[], timers_only: false, base: O::Accept };
             let Some((m, e)) = tamper(&mut tu, kind, &signed_req, &env) else {
                 ctx.class("tamper-not-applicable");
                 return Ok(());
@@ -576,8 +619,9 @@ pub fn run_tamper(data: &[u8], ctx: &mut Ctx) -> CaseResult {
             }
             let prior_mac = refseq.prior_mac.clone();
             let timers_only = side == Side::SeqSub;
-            let signed = refseq.sign(&ks.rk.name, &resp, &p);
-            let env = Env { side, store: &store, recv: &kc, signer: &ks.rk, prior: Prior::Mac(&prior_mac), between: &between, timers_only };
+            let p_t = if err_resp { SignParams { error: rs::BADTIME, other: rs::t48(t_srv).to_vec(), ..p.clone() } } else { p.clone() };
+            let signed = refseq.sign(&ks.rk.name, &resp, &p_t);
+            let env = Env { side, store: &store, recv: &kc, signer: &ks.rk, prior: Prior::Mac(&prior_mac), between: &between, timers_only, base };
             let Some((m, e)) = tamper(&mut tu, kind, &signed, &env) else {
                 ctx.class("tamper-not-applicable");
                 return Ok(());
@@ -598,13 +642,20 @@ pub fn run_tamper(data: &[u8], ctx: &mut Ctx) -> CaseResult {
     if exact {
         ctx.class("outcome-exactly-predicted");
     }
+    if err_resp {
+        ctx.class("tamper/signed-badtime-response");
+        ctx.class(format!("badtime-response/{:?}", side));
+        if exact && exp.allowed[0] != base {
+            ctx.class("tamper/signed-badtime-response-exact-rejection");
+        }
+    }
     if exp.tsig_field {
         ctx.nontrivial(&(side, exp.label, &tampered));
     }
-    ctx.sample(|| format!("tamper {:?} {} key[{}] store {} keys; expect {:?}\n  signed   {}\n  tampered {}", side, exp.label, kc.show(), store.len(), exp.allowed, hex(&signed_of_tampered), hex(&tampered)));
+    ctx.sample(|| format!("tamper {:?} {infix}{} key[{}] store {} keys; expect {:?}\n  signed   {}\n  tampered {}", side, exp.label, kc.show(), store.len(), exp.allowed, hex(&signed_of_tampered), hex(&tampered)));
 
     //--- deliver
-    let detail = |got: O| format!("{:?}: {} -> {:?}, RFC 8945 allows {:?}\nkey {}\nsigned   {}\ntampered {}", side, exp.label, got, exp.allowed, kc.show(), hex(&signed_of_tampered), hex(&tampered));
+    let detail = |got: O| format!("{:?}: {infix}{} -> {:?}, RFC 8945 allows {:?}\nkey {}\nsigned   {}\ntampered {}", side, exp.label, got, exp.allowed, kc.show(), hex(&signed_of_tampered), hex(&tampered));
     match side {
         Side::Server => {
             let ans = Ans { pre: &resp, t, fudge: Some(fudge), cap: usize::MAX };
@@ -644,29 +695,51 @@ pub fn run_tamper(data: &[u8], ctx: &mut Ctx) -> CaseResult {
         Side::CliTxn => {
             let c = cli_txn.unwrap();
             let mut m = Message::from_octets(tampered.clone()).unwrap();
-            let got = o_client(&c.answer(&mut m, t48(t)));
-            vensure!(exp.allowed.contains(&got), format!("client-answer:{}:{:?}{}", exp.label, got, if exact { format!("-expected-{:?}", exp.allowed[0]) } else { String::new() }), "{}", detail(got));
+            let r = c.answer(&mut m, t48(t));
+            let got = o_client(&r);
+            vensure!(exp.allowed.contains(&got), format!("client-answer:{infix}{}:{:?}{}", exp.label, got, if exact { format!("-expected-{:?}", exp.allowed[0]) } else { String::new() }), "{}", detail(got));
             if got == O::Accept {
                 ctx.class("tampered-but-legitimately-accepted");
                 check_restored("client-answer", m.as_slice(), &pre_of_tampered)?;
+            } else if got == O::SrvBadTime {
+                // the complaint passed authentication although the message
+                // was altered (ID, letter case, permitted MAC length): the
+                // clocks it reports are the signed ones
+                ctx.class("tampered-badtime-response-legitimately-reported");
+                check_badtime_clocks("client-answer", &r, t, t_srv)?;
             } else {
                 // "you can drop it and try with the next answer. The
                 // transaction will remain valid."
                 let mut gm = Message::from_octets(signed_of_tampered.clone()).unwrap();
-                let g = o_client(&c.answer(&mut gm, t48(t)));
-                vensure!(g == O::Accept, format!("client-answer:genuine-answer-after-rejected-message-{:?}-expected-Accept", g), "after {}", detail(got));
-                check_restored("client-answer", gm.as_slice(), &pre_of_tampered)?;
-                ctx.class("genuine-answer-after-rejected-answer-verified");
+                let gr = c.answer(&mut gm, t48(t));
+                let g = o_client(&gr);
+                vensure!(g == base, format!("client-answer:{infix}genuine-answer-after-rejected-message-{:?}-expected-{:?}", g, base), "after {}", detail(got));
+                if err_resp {
+                    check_badtime_clocks("client-answer", &gr, t, t_srv)?;
+                    ctx.class("genuine-badtime-response-after-rejected-answer-reported");
+                } else {
+                    check_restored("client-answer", gm.as_slice(), &pre_of_tampered)?;
+                    ctx.class("genuine-answer-after-rejected-answer-verified");
+                }
             }
         }
         Side::SeqFirst | Side::SeqSub => {
             let mut c = cli_seq.unwrap();
             let mut m = Message::from_octets(tampered.clone()).unwrap();
-            let got = o_client(&c.answer(&mut m, t48(t)));
+            let r = c.answer(&mut m, t48(t));
+            let got = o_client(&r);
             let (ok, tsigs) = rs::locate_tsigs(&tampered);
             let visible = ok && tsigs.iter().any(|t| t.0 == 3 && t.2);
             let hidden_ok = side == Side::SeqSub && exp.allowed.contains(&O::SrvUnsigned) && !visible;
-            vensure!(exp.allowed.contains(&got) || (got == O::Accept && hidden_ok), format!("client-sequence:{}:{:?}{}", exp.label, got, if exact { format!("-expected-{:?}", exp.allowed[0]) } else { String::new() }), "{}", detail(got));
+            vensure!(exp.allowed.contains(&got) || (got == O::Accept && hidden_ok), format!("client-sequence:{infix}{}:{:?}{}", exp.label, got, if exact { format!("-expected-{:?}", exp.allowed[0]) } else { String::new() }), "{}", detail(got));
+            if got == O::SrvBadTime {
+                ctx.class("tampered-badtime-response-legitimately-reported");
+                if side == Side::SeqFirst {
+                    // (from the second message on, error and other data are
+                    // not covered by the MAC: nothing to demand there)
+                    check_badtime_clocks("client-sequence", &r, t, t_srv)?;
+                }
+            }
             if side == Side::SeqFirst && got != O::Accept {
                 // A rejected first message does not open the sequence: an
                 // unsigned message still is not acceptable (RFC 8945 §5.3.1,
@@ -685,11 +758,18 @@ pub fn run_tamper(data: &[u8], ctx: &mut Ctx) -> CaseResult {
                 let before_digest = matches!(got, O::SrvUnsigned | O::BadKey) || (got == O::FormErr && !matches!(exp.label, "tsig-mac-size-flip" | "mac-longer-than-hash-output" | "mac-shorter-than-rfc-minimum" | "other-algorithm-of-same-name"));
                 if before_digest {
                     let mut gm = Message::from_octets(signed_of_tampered.clone()).unwrap();
-                    let g = o_client(&c.answer(&mut gm, t48(t)));
+                    let gr = c.answer(&mut gm, t48(t));
+                    let g = o_client(&gr);
                     // No documentation promises that a ClientSequence stays
                     // usable after a rejection (unlike ClientTransaction): a
                     // refusal here is a fail-stop sequence, not a violation.
-                    if g == O::Accept {
+                    if err_resp {
+                        vensure!(g != O::Accept, "client-sequence:badtime-response:genuine-first-after-rejected-first-accepted", "after {}", detail(got));
+                        if g == O::SrvBadTime {
+                            check_badtime_clocks("client-sequence", &gr, t, t_srv)?;
+                            ctx.class("genuine-badtime-first-after-rejected-first-reported");
+                        }
+                    } else if g == O::Accept {
                         check_restored("client-sequence", gm.as_slice(), &pre_of_tampered)?;
                         ctx.class("genuine-first-after-rejected-first-verified");
                     } else {
